@@ -101,6 +101,8 @@ impl FeoxStore {
                 let mut metadata = self._metadata.write();
                 metadata.total_records = self.stats.record_count.load(Ordering::Relaxed) as u64;
                 metadata.total_size = self.stats.disk_usage.load(Ordering::Relaxed);
+                #[cfg(feature = "verif")]
+                crate::verif::wait_until("lock_free_space", &|| !self.free_space.is_locked_exclusive());
                 metadata.fragmentation = self.free_space.read().get_fragmentation();
                 metadata.update();
                 #[cfg(feature = "verif")]
@@ -372,6 +374,8 @@ impl Drop for FeoxStore {
                 let mut metadata = self._metadata.write();
                 metadata.total_records = self.stats.record_count.load(Ordering::Relaxed) as u64;
                 metadata.total_size = self.stats.disk_usage.load(Ordering::Relaxed);
+                #[cfg(feature = "verif")]
+                crate::verif::wait_until("lock_free_space", &|| !self.free_space.is_locked_exclusive());
                 metadata.fragmentation = self.free_space.read().get_fragmentation();
                 metadata.update();
                 #[cfg(feature = "verif")]
